@@ -18,7 +18,7 @@ ASSUME = ["mmap windows of the exfile are assumed to succeed in the model (their
 def check(run):
     proofs_ok = run.proofs()
     quick = run.tier == "quick"
-    ns, nops = (300, 100) if quick else (1500, 200)
+    ns, nops = (300, 100) if quick else (8000, 200)
     if not proofs_ok:
         ns *= 10
     variant, results = fc.run_scripts(run, "C10", ns, nops)
